@@ -1,6 +1,8 @@
 // Package validator implements rules for validating fields.
 package validator
 
+import "sync"
+
 // Validator is an interface for validating fields in structs.
 type Validator interface {
 	Validate() string
@@ -12,4 +14,17 @@ type Validator interface {
 }
 
 // GeneratorMemory is a map used to track the state of generated validators.
+// It is scoped to the struct being generated: callers hold GeneratorMu and call
+// ResetGeneratorMemory before generating each struct.
 var GeneratorMemory = map[string]bool{}
+
+// GeneratorMu serializes generation, which reads and writes GeneratorMemory.
+// Packages of one invocation are analyzed concurrently.
+var GeneratorMu sync.Mutex
+
+// ResetGeneratorMemory forgets which error variables have been emitted, so that the
+// output for a struct does not depend on what was generated before it.
+// The caller must hold GeneratorMu.
+func ResetGeneratorMemory() {
+	clear(GeneratorMemory)
+}
